@@ -167,11 +167,10 @@ theorem adds_src_length (files : List (Bytes × Bytes)) : ((files.map fun f => O
 theorem resolveBank_ok (m bk : Nat) (hm : 0 < m) (hm24 : m < 16777216) (hb : bk < 1073741824)
     (files : List (Bytes × Bytes)) (songs : List SongIn) (l : Linker) (bank : Bytes)
     (hparse : files.map (fun f => parseMds f.2) = songs.map some)
-    (hstart : ∀ s ∈ songs, ∀ sl ∈ s.slots, sl.start = 0)
     (hrun : runOps (files.map fun f => Op.add f.1 f.2) (Linker.fresh m bk) = .ok l)
     (hseq : getSeqData l = .ok bank) (hbl : bank.length < 4294967296) (hcnt : songs.length < 65536) :
     resolveBank songs bank (getPcmData l) = .ok () := by
-  obtain ⟨hall, hnd⟩ := songs_in_order m bk hm hm24 hb files songs l bank hparse hstart hrun hseq
+  obtain ⟨hall, hnd⟩ := songs_in_order m bk hm hm24 hb files songs l bank hparse hrun hseq
   have L := getSeqData_laid l bank hseq
   obtain ⟨dend, top, soffs, ds, G⟩ := laid_geo L
   have hn : songs.length = l.songs.length := by
